@@ -307,6 +307,30 @@ func TestExplore(t *testing.T) {
 			st.ChainEvents += len(seqv)
 		}
 	}
+	// relay: a client renews (once, twice) on its circuit, then a second device comes up behind the same circuit and
+	// takes the lease over, the lease ends, and the other clients cycle through the pool until the address is bound
+	// again; then the first device comes back. Whatever record of the first device survived all that must not make
+	// the server offer or acknowledge the address to it.
+	for _, renewals := range []int{1, 2} {
+		rs := chainSys[3]
+		seqv := []core.Event{ev("DISC", 1), ev("REQSEL", 1)}
+		for i := 0; i < renewals; i++ {
+			seqv = append(seqv, ev("REQOWN", 1))
+		}
+		seqv = append(seqv, ev("DISCALT", 1), ev("REQSELALT", 1), ev("REL", 1), ev("DISC", 3), ev("REQSEL", 3))
+		for i := 0; i < 7; i++ {
+			seqv = append(seqv, ev("DISC", 2), ev("REQSEL", 2), ev("DISC", 1), ev("REL", 2))
+		}
+		seqv = append(seqv, ev("DISC", 2), ev("REQSEL", 2), ev("DISC", 1), ev("REQSEL", 1), ev("REQOWN", 1), ev("REQOWN", 2))
+		tab, pr := core.Chain(rs, fmt.Sprintf("%s#renew-move%d", rs.Name(), renewals), seqv, true)
+		if pr != nil {
+			st.Panics = append(st.Panics, *pr)
+		} else {
+			bundle.Systems = append(bundle.Systems, tab)
+			st.Chains++
+			st.ChainEvents += len(seqv)
+		}
+	}
 	if err := core.WriteJSON(out, "bundle.json", bundle); err != nil {
 		t.Fatal(err)
 	}
